@@ -108,6 +108,25 @@ theorem explicit_is_final_partial (b : List Nat) (h4 : 4 ≤ b.length) :
   | ans e x => rfl
   | scan => cases charsetName b <;> simp
 
+/-- … and that family is the ONLY place where the two differ: if `_readUrl`'s idea of "explicit" is not the
+CSS 2.1 answer for the complete data, the data is shorter than four bytes and starts with `FF FE` -/
+theorem explicit_differs_only_at_short_bom (b : List Nat)
+    (h : explicitOf (.bytes b) ≠ (match detect b true with | some (e, true) => some (encName e) | _ => none)) :
+    b.length < 4 ∧ b.take 2 = [0xFF, 0xFE] := by
+  by_cases h4 : 4 ≤ b.length
+  · exact absurd (explicit_is_final_partial b h4) h
+  · have hl : b.length < 4 := by omega
+    refine ⟨hl, ?_⟩
+    have e1 : explicitOf (.bytes b) = (exAns (detect b false)).map encName := by
+      simp only [explicitOf, contentDetect]
+      rcases hd : detect b false with _ | ⟨e, _ | _⟩ <;> simp [exAns]
+    have e2 : (match detect b true with | some (e, true) => some (encName e) | _ => none)
+        = (exAns (detect b true)).map encName := by
+      rcases hd : detect b true with _ | ⟨e, _ | _⟩ <;> simp [exAns]
+    rcases explicit_short b hl with heq | hbom
+    · rw [e1, e2, heq] at h; exact absurd rfl h
+    · exact hbom
+
 /-- the witness: content `FF FE` (an empty UTF-16 sheet) is explicit by CSS 2.1, but `_readUrl` falls through to
 the parent's encoding / UTF-8 -/
 example : explicitOf (.bytes [0xFF, 0xFE]) = none ∧
